@@ -13,16 +13,16 @@
                        `GraphMachine.add_model` touch `model_graphs` / `_markup` (`Model/Side.lean`),
                        for ANY update functions, is the plain engine once the table is projected away;
     locking            `C09_locked_single_thread`: with one thread the lock protocol of
-                       `Model/Locked.lean` never waits, stands still only at the end of the program, and
+                       `Model/Locked.lean` (dynamic registration: add_model / remove_model) never waits, stands still only at the end of the program, and
                        computes what the unlocked sequential semantics computes, calls in program order;
     asyncio            `C09_async_flat` = `C07_flat_partial`;
     hierarchy          `C09_nested_flat`: TODO — needs the nested engine model (`Model/Nested*.lean`, property
-                       C02, being built).  Until then: the depth-1 collapse of the one function that
-                       differs, `NestedTransition._change_state` (`Model/HsmFlat.lean`, tied to
-                       HierarchicalMachine by trace equality): `C09_hsm_flat_partial` (scripts without
-                       re-entrant calls), `C09_hsm_flat_counterexample` (the full-strength statement is
-                       false: listed finding F-C09-hsm-retrigger-exit); everything else about the
-                       hierarchical classes is decided by the differential (harness/props/c09.py).
+                       C02).  Until then: the depth-1 collapse of the one function that differs,
+                       `NestedTransition._change_state` (`Model/HsmFlat.lean`, tied to HierarchicalMachine
+                       by trace equality): `C09_hsm_flat`, full strength — every script, re-entrant calls
+                       included (since /repo ba1cc46 the flat transition exits the state the model is in,
+                       as the hierarchical one does); everything else about the hierarchical classes is
+                       decided by the differential (harness/props/c09.py).
 
   and, in `Props/C09Tables.lean` (a module of its own, built by the C09 check only, so that a change of
   the live classes can break no other property's build), over the table that
@@ -117,47 +117,66 @@ example :
 namespace Locked
 
 /-- **Attaching locking never changes what a machine does for a single thread.**  Configuration `c`
-with the machine mutex `L` (`WF`), every lock listed once per call (`LocksOnce`; true of the default
-`machine_context`, see `C09_locks_once_default`), ANY engine `eng`, ANY program of thread 0 (calls,
-re-entrant calls from callbacks, raising calls — even malformed ones), no other thread calling the
-machine, ANY schedule `σ` (the other threads' turns are no-ops):
+with the machine mutex `L` (`WF`), ANY engine `eng`, ANY program of thread 0 — calls, re-entrant calls
+from callbacks, raising calls, `add_model` / `remove_model` (`Op.reg` / `Op.unreg`), even malformed
+programs — in which the machine's own ident is never handed to `add_model` (`ProgOK`) and every
+context list names each lock once (`LocksOnce`; true of the default `machine_context`, see
+`C09_locks_once_default`), no other thread calling the machine, ANY schedule `σ` (the other threads'
+turns are no-ops), inside C06's statement (`ung = false`: no event on a model that is unregistered at
+that moment on a flat machine — such an event enters no context at all):
 
   1. the thread is never blocked — the locks never make their only user wait;
-  2. it stands still only when its program is finished, or on an engine step / return outside any call
-     (a malformed program): no deadlock;
+  2. it stands still only when its program is finished, or on a step outside any call (a malformed
+     program): no deadlock;
   3. there is `k` such that the *unlocked* sequential semantics (`seqRun`: no lock, no context) after
      the first `k` outermost calls in program order has the same remaining program whenever the
      thread is outside a call, and the same machine state and the same log of engine steps whenever it
      is not inside a call body — lock and context actions are invisible. -/
-theorem C09_locked_single_thread (c : Cfg) (L : Nat) (hwf : WF c L) (h1 : LocksOnce c)
-    (eng : Nat → Nat → Nat) (prog : List Op) (ms : Nat) (σ : List Nat) :
-    let s := runSched c eng (init (solo prog) ms) σ
+theorem C09_locked_single_thread (c : Cfg) (L : Nat) (hwf : WF c L) (eng : Nat → Nat → Nat)
+    (prog : List Op) (hp : ProgOK (solo prog)) (h1 : LocksOnce c prog) (ms : Nat) (σ : List Nat) :
+    let s := runSched c eng (init c (solo prog) ms) σ
+    s.ung = false →
     blocked s 0 = false ∧
     (step c eng s 0 = s → (s.th 0).prog = [] ∨ stuckOutsideCall (s.th 0)) ∧
     ∃ k : Nat,
       let q := seqRun eng (solo prog) ms (List.replicate k 0)
       ((s.th 0).frames = [] → q.progs 0 = (s.th 0).prog) ∧
       ((s.th 0).frames = [] ∨ (s.th 0).pend ≠ [] ∨ (s.th 0).exiting = true →
-        q.ms = s.mstate ∧ q.log = cbLog s.trace) :=
-  ⟨C09P.solo_not_blocked hwf h1 eng prog ms σ, C09P.solo_progress hwf h1 eng prog ms σ,
-   C09P.solo_serial hwf eng prog ms σ⟩
+        q.ms = s.mstate ∧ q.log = cbLog s.trace) := by
+  intro s hu
+  obtain ⟨hI, hS⟩ := C09P.solo_inv hwf hp h1 eng ms σ hu
+  exact ⟨C09P.solo_not_blocked hI hS, C09P.solo_progress eng hI hS,
+    C09P.solo_serial hwf eng prog hp ms σ hu hS.idle⟩
 
 /-- the hypotheses hold for the classes as the factory builds them: `machine_context=None`, model
-contexts (if any) that are not locks — flat or hierarchical -/
-theorem C09_locks_once_default (hsm : Bool) (extra : List (Nat × List Ctx))
-    (hx : ∀ p ∈ extra, ∀ l, Ctx.lock l ∉ p.2) (hi : ∀ p ∈ extra, Ctx.ident ∉ p.2) :
-    WF { hsm := hsm, base := [], extra := extra } 0 ∧ LocksOnce { hsm := hsm, base := [], extra := extra } :=
-  ⟨⟨by simp [Cfg.mbase], by simp, hi⟩, C09P.locksOnce_default _ rfl hx⟩
+contexts — initial ones and those a program hands to `add_model` — that are neither locks nor the
+machine's ident; flat or hierarchical, any set of initially unregistered models -/
+theorem C09_locks_once_default (hsm : Bool) (extra : List (Nat × List Ctx)) (absent : List Nat) (prog : List Op)
+    (hx : ∀ p ∈ extra, ∀ l, Ctx.lock l ∉ p.2) (hi : ∀ p ∈ extra, Ctx.ident ∉ p.2)
+    (hr : ∀ m xs, Op.reg m xs ∈ prog → (∀ l, Ctx.lock l ∉ xs) ∧ Ctx.ident ∉ xs) :
+    WF { hsm := hsm, base := [], extra := extra, absent := absent } 0 ∧
+    LocksOnce { hsm := hsm, base := [], extra := extra, absent := absent } prog ∧ ProgOK (solo prog) :=
+  ⟨⟨by simp [Cfg.mbase], by simp, hi⟩,
+   C09P.locksOnce_default _ prog rfl hx (fun m xs h => (hr m xs h).1),
+   fun t m xs h => by
+     by_cases ht : t = 0
+     · subst ht; exact (hr m xs (by simpa [solo] using h)).2
+     · simp [solo, ht] at h⟩
 
-/-- non-vacuity: a program with a re-entrant and a raising call runs to completion in 21 steps under
-the lock protocol (12 of them lock / context actions; a further turn is a no-op) and the engine sees `cb 1, cb 2, cb 3` -/
+/-- non-vacuity: a program with a re-entrant call, a raising call, a remove_model and an add_model with
+a new model context runs to completion under the lock protocol (the last event on model 0 enters the
+machine lock, the ident and the NEW context 8); the engine sees `cb 1, cb 2, cb 3`; a further turn is
+a no-op; the unlocked semantics computes the same state -/
 example :
     let c : Cfg := { hsm := false, base := [], extra := [(0, [.user 7])] }
-    let prog : List Op := [.call 1 0, .cb 1, .call 0 1, .cb 2, .ret false, .ret false, .call 1 2, .cb 3, .ret true]
-    let s := runSched c (fun a m => 2 * m + a) (init (solo prog) 0) (List.replicate 21 0)
-    (s.th 0).prog = [] ∧ (s.th 0).frames = [] ∧ s.trace.length = 21 ∧ cbLog s.trace = [(0, 1), (0, 2), (0, 3)] ∧
-    s.mstate = 11 ∧ (step c (fun a m => 2 * m + a) s 0).trace.length = 21 ∧
-    (seqRun (fun a m => 2 * m + a) (solo prog) 0 [0, 0]).ms = 11 := by
+    let prog : List Op := [.call 1 0, .cb 1, .call 0 1, .cb 2, .ret false, .ret false,
+                           .call 0 2, .unreg 0, .reg 0 [.user 8], .ret true, .call 1 3, .cb 3, .ret false]
+    let s := runSched c (fun a m => 2 * m + a) (init c (solo prog) 0) (List.replicate 40 0)
+    (s.th 0).prog = [] ∧ (s.th 0).frames = [] ∧ s.ung = false ∧ cbLog s.trace = [(0, 1), (0, 2), (0, 3)] ∧
+    s.trace.drop 20 = [.callBegin 0 1 3, .enter 0 (.lock 0), .enter 0 .ident, .enter 0 (.user 8), .cb 0 3,
+      .exit 0 (.user 8), .exit 0 .ident, .exit 0 (.lock 0), .callEnd 0 false] ∧
+    s.mstate = 11 ∧ (step c (fun a m => 2 * m + a) s 0).trace.length = s.trace.length ∧
+    (seqRun (fun a m => 2 * m + a) (solo prog) 0 [0, 0, 0]).ms = 11 := by
   decide
 
 end Locked
@@ -193,62 +212,56 @@ theorem C09_async_graph_flat {γ : Type} (H : Hooks γ) (cfg : Cfg) (sc : Script
 /-! ## hierarchy
 
 TODO `C09_nested_flat : Nested.run (embed cfg) = Core.run cfg` — HSM dispatch on depth-1 trees collapses
-to the flat step.  Needs the nested engine model `Model/Nested*.lean` (property C02, being built).  NOT
-proved here.
+to the flat step.  Needs the nested engine model `Model/Nested*.lean` (property C02).  NOT proved here.
 
-What IS modelled is the depth-1 collapse of the one function in which the hierarchical classes were
-found to differ from `Machine` on flat configurations, `NestedTransition._change_state`
-(`Model/HsmFlat.lean`; tied to HierarchicalMachine by trace equality on every generated case, request
-`hflat`): the destination is resolved first, and the states that are exited are those of the model's
-configuration AT THAT MOMENT, not `transition.source`.  The two coincide unless a callback of the event
-has moved the model in the meantime. -/
-
-open HsmFlat in
-/-- **C09 for the hierarchical classes at full strength (kept visible; FALSE for the code as it is,
-finding F-C09-hsm-retrigger-exit).** -/
-def C09_hsm_flat_statement : Prop :=
-  ∀ (cfg : Cfg) (sc : Script) (qmax fuel : Nat) (h : List Cmd) (s : St),
-    DestsRegistered cfg → HsmFlat.runHistory sc cfg qmax fuel h s = runHistory sc cfg qmax fuel h s
+What IS modelled is the depth-1 collapse of the one function in which the hierarchical classes differ
+from `Machine` on flat configurations, `NestedTransition._change_state` (`Model/HsmFlat.lean`; tied to
+HierarchicalMachine by trace equality on every generated case, request `hflat`): the destination is
+resolved first, then the states of the model's configuration AT THAT MOMENT are exited.  Since /repo
+ba1cc46 (former finding F-C09-hsm-retrigger-exit, fixed) `Transition._change_state` exits the state the
+model is in as well, and the two engines differ only in when an unregistered destination is noticed. -/
 
 open HsmFlat in
-/-- **C09 for the hierarchical classes (partial).**  Exclusion: scripts whose callbacks issue no
-re-entrant API calls (then the model is still in `transition.source` when `_change_state` starts).
-For every configuration with registered destinations, every such script — callbacks and conditions
-may return or raise anything —, every history (triggers, may_, dispatch, add / remove model), queued
-or not: the hierarchical engine on a flat configuration IS the flat engine. -/
-theorem C09_hsm_flat_partial (cfg : Cfg) (sc : Script) (qmax fuel : Nat) (h : List Cmd) (s : St)
-    (hD : DestsRegistered cfg) (hC : NoCmds sc) :
+/-- **C09 for the hierarchical classes, full strength.**  For every configuration with registered
+destinations, EVERY script — callbacks and conditions may return or raise anything and issue any
+re-entrant API calls (trigger, may_, dispatch, add / remove model) —, every history, queued or not,
+every fuel: the hierarchical engine on a flat configuration IS the flat engine (same trace, same
+model states, same queue). -/
+theorem C09_hsm_flat (cfg : Cfg) (sc : Script) (qmax fuel : Nat) (h : List Cmd) (s : St)
+    (hD : DestsRegistered cfg) :
     HsmFlat.runHistory sc cfg qmax fuel h s = runHistory sc cfg qmax fuel h s :=
-  HsmFlat.C09P.runHistory_eq sc cfg hC hD qmax fuel h s
+  HsmFlat.C09P.runHistory_eq sc cfg hD qmax fuel h s
 
-/-- the witness (corpus/C09/retrigger_exit.json, shrunk by the harness): `e0 : s0 → s2`, its prepare
-callback 17 triggers `e0` again on the same model at its first invocation, unqueued; `s2` has the exit
-callback 31 -/
+/-- regression (former finding F-C09-hsm-retrigger-exit; corpus/C09/retrigger_exit.json): `e0 : s0 → s2`,
+its prepare callback 17 triggers `e0` again on the same model at its first invocation, unqueued; `s2`
+has the exit callback 31 -/
 def hsmWitnessCfg : Cfg :=
   { states := [{ name := 0 }, { name := 2, onExit := [31] }],
     events := [(0, [{ source := 0, dest := some 2, prepare := [17] }])], initial := 0 }
 
 def hsmWitnessScript : Script := fun c k => if c = 17 ∧ k = 0 then { cmds := [.trigger 0 0] } else {}
 
-theorem C09_hsm_flat_counterexample : ¬ C09_hsm_flat_statement := by
-  intro h
-  have := congrArg (Option.map fun s => s.log)
-    (h hsmWitnessCfg hsmWitnessScript 8 3 [.trigger 0 0] (St.init hsmWitnessCfg [0]) (by decide))
-  revert this
-  decide
-
-/-- what the two engines do on the witness: the inner event moves the model to `s2`; the outer
-transition then exits `s0` on `Machine` (nothing to see) but `s2` — callback 31 — on the hierarchical
-classes; both end in `s2` -/
+/-- on the witness both engines now do the same: the inner event moves the model to `s2`; the outer
+transition then exits `s2` — callback 31 — and re-enters it (before the repair `Machine` exited `s0`,
+a state the model was no longer in, and callback 31 never ran) -/
 example :
+    HsmFlat.DestsRegistered hsmWitnessCfg ∧
     ((runHistory hsmWitnessScript hsmWitnessCfg 8 3 [.trigger 0 0] (St.init hsmWitnessCfg [0])).map fun s =>
-      (C07.callsOf s.log, s.stateOf 0)) = some ([(.prepare, 17), (.prepare, 17)], 2) ∧
+      (C07.callsOf s.log, s.stateOf 0)) = some ([(.prepare, 17), (.prepare, 17), (.onExit, 31)], 2) ∧
     ((HsmFlat.runHistory hsmWitnessScript hsmWitnessCfg 8 3 [.trigger 0 0] (St.init hsmWitnessCfg [0])).map fun s =>
       (C07.callsOf s.log, s.stateOf 0)) = some ([(.prepare, 17), (.prepare, 17), (.onExit, 31)], 2) := by
   decide
 
-/-- non-vacuity of the partial theorem: a configuration with callbacks in every stage and a raising
-condition meets its hypotheses -/
-example : HsmFlat.DestsRegistered exCfg9 ∧ HsmFlat.DestsRegistered hsmWitnessCfg := by decide
+/-- the hypothesis is needed: with an unregistered destination the flat engine runs the exit
+callbacks before it raises ValueError, the hierarchical one raises first -/
+example :
+    let cfg : Cfg := { states := [{ name := 0, onExit := [5] }], events := [(0, [{ source := 0, dest := some 9 }])],
+                       initial := 0 }
+    ¬ HsmFlat.DestsRegistered cfg ∧
+    ((runHistory (fun _ _ => {}) cfg 8 2 [.trigger 0 0] (St.init cfg [0])).map fun s => C07.callsOf s.log) =
+      some [(.onExit, 5)] ∧
+    ((HsmFlat.runHistory (fun _ _ => {}) cfg 8 2 [.trigger 0 0] (St.init cfg [0])).map fun s => C07.callsOf s.log) =
+      some [] := by
+  decide
 
 end TM
